@@ -554,7 +554,15 @@ class PWLCalibration(keras.layers.Layer):
         value=self.input_keypoints,
         dtype=self.dtype,
         shape=[len(self.input_keypoints), 1])
-    outputs = self.call(test_inputs)
+    if self.impute_missing:
+      # Keypoints are regular inputs: mark them explicitly as not missing so
+      # that neither `missing_input_value` nor an `is_missing` input is needed.
+      outputs = self.call([test_inputs, tf.zeros_like(test_inputs)])
+    else:
+      outputs = self.call(test_inputs)
+    if isinstance(outputs, list):
+      # `split_outputs` returns one tensor per unit.
+      outputs = tf.concat(outputs, axis=1)
 
     asserts = pwl_calibration_lib.assert_constraints(
         outputs=outputs,
